@@ -667,6 +667,7 @@ def seeds(tier):
                 if e.key == "location":
                     e.value = f"{CANARY}/{e.value}"
         out.append((label, m))
+    out.extend(gp.separator_corner_models())
     return out
 
 
